@@ -47,7 +47,7 @@ def run_wsgi(app, environ, close=True, max_chunks=100000):
     return rec
 
 
-def run_asgi(app, scope, messages=None, zerocopy=False, disconnect_after_body_events=None, timeout=20):
+def run_asgi(app, scope, messages=None, zerocopy=False, disconnect_after_body_events=None, timeout=20, max_events=3000):
     """messages: list of receive() events (then http.disconnect forever, after a short sleep)."""
     rec = {"events": [], "problems": [], "status": None, "headers": None, "body": b"", "n_start": 0, "n_body": 0,
            "closed": False}
@@ -69,6 +69,10 @@ def run_asgi(app, scope, messages=None, zerocopy=False, disconnect_after_body_ev
 
     async def send(message):
         t = message.get("type")
+        rec["n_events"] = rec.get("n_events", 0) + 1
+        if rec["n_events"] > max_events:
+            rec["problems"].append("runaway response: more than %d events" % max_events)
+            raise ProtocolError("runaway response")
         if rec["closed"]:
             rec["problems"].append("event %s after the final body event" % t)
         if t == "http.response.start":
